@@ -209,7 +209,7 @@ func c15(r *core.Report) {
 				continue
 			}
 			for _, v := range core.ReturnValues(ret, 1) {
-				if core.IsNilConst(v) {
+				if !nnShared(p).At(v, ret) {
 					okG = false
 				}
 			}
